@@ -174,7 +174,7 @@ def run_exchange(spec):
         worst = 0.0
         for step in range(3):
             before = [(nme, m.copy(), t.copy()) for nme, m, t in observe.streams(reg)]
-            drive.guarded("probe", reg.calculate, dz, {"pins": None, "cool": None, "duct": None, "refl": None},
+            drive.guarded("probe", reg.calculate, dz, {"pins": None, "cool": None, "duct": None, "refl": 0.0},
                           np.ones(ng), np.ones(ng), True, False)
             now = observe.streams(reg)
             num = 0.0
